@@ -60,15 +60,16 @@ def wf (σ : Schema) : Bool :=
   -- a tail and custom attributes are never combined (only WELCOME has custom attributes)
   (!(σ.custom && σ.tail.isSome)) &&
   σ.pos.all (PosStep.wf σ) &&
-  σ.opts.all OptStep.wf
+  σ.opts.all OptStep.wf &&
+  -- what `parse` checks across fields is among the constructor's assertions
+  σ.pcross.all (fun c => σ.cross.contains c)
 
 end Schema
 
 /-! ### declared types of option values -/
 
 def rolesFeatValid (known : List Str) : Dict → Bool
-  | fd => fd.all (fun kv => kv.2.isBool) && (featCanon fd known).map (·.1) == fd.map (·.1) && nodup (fd.map (·.1)) &&
-          !(fd.any (fun kv => kv.1 == cs!"self"))
+  | fd => fd.all (fun kv => kv.2.isBool) && (featCanon fd known).map (·.1) == fd.map (·.1) && nodup (fd.map (·.1))
 
 /-- the value `parse` produces for `roles`: role ↦ {feature ↦ bool}, role names allowed and distinct, features a
 subsequence of the known ones in attribute order -/
@@ -91,23 +92,20 @@ def OTy.valid (O : Oracles) : OTy → WVal → Bool
   | .strEnum _, _ => false
   | .listInt, .list xs => allInt xs
   | .listInt, _ => false
+  | .id, .int i => idOk i
+  | .id, _ => false
+  | .listId, .list xs => allId xs
+  | .listId, _ => false
   | .listStr, .list xs => allStr xs
   | .listStr, _ => false
   | .dict, v => v.isDict
   | .uri fl, v => uriOk O fl v
   | .forwardFor atParse, .list xs => !atParse || xs.all ffItemParseOk
   | .forwardFor _, _ => false
-  | .boolLoose, v => v.isNull || v.eqTrue || v.eqFalse
-  | .unchecked, _ => true
+  | .boolOrNull, v => v.isNull || v.isBool
+  | .strOrNull, v => v.isNull || v.isStr
+  | .dictOrNull, v => v.isNull || v.isDict
   | .roles allowed feats, v => rolesValid allowed feats v
-
-/-- values for which "declared type" really is the declared type: excludes the types that today's `parse` does not
-check (`unchecked`), checks loosely (`boolLoose` admits 0/1/0.0/1.0) or checks with the broken loop (`forwardFor false`) -/
-def OTy.tight : OTy → Bool
-  | .unchecked => false
-  | .boolLoose => false
-  | .forwardFor atParse => atParse
-  | _ => true
 
 /-! ### strictness of a parsed message (C08) -/
 
@@ -160,7 +158,7 @@ end Schema
 /-- an option that `marshal` does not write must hold its default; one that it writes must have its declared
 type; a `resume_token`-style entry may be absent only if its companion is not truthy on the wire -/
 def OptStep.residual (O : Oracles) (σ : Schema) (m : Msg) (s : OptStep) : Bool :=
-  (if s.mm.emits (m.get s.field) (m.get s.mm.guard) then s.ty.valid O (m.get s.field)
+  (if s.mm.emits (m.get s.field) then s.ty.valid O (m.get s.field)
    else isDflt s.dflt (m.get s.field) &&
         (match s.absentErrIf with
          | none => true
@@ -201,8 +199,7 @@ Written without reference to the parse loop: `roles` is a non-empty dictionary w
 allowed role name; every role value is a dictionary with string keys; its `features`, if present, is a dictionary
 with string keys in which **every known feature of that role** (the keyword parameters of the role's
 `Role*Features.__init__`, regenerated from role.py) is absent, `null` or a JSON `bool`.  Unknown feature names are
-ignored (swallowed by `**kwargs`) whatever their value — except the name `self`, which the code cannot even pass on
-(it collides with the bound argument; the model raises `TypeError` there, so such a dictionary is not accepted). -/
+ignored (swallowed by `**kwargs`) whatever their value — the name `self` included (no role has such a feature). -/
 
 def featureValueOk : Option WVal → Bool
   | none => true
@@ -211,7 +208,7 @@ def featureValueOk : Option WVal → Bool
   | some _ => false
 
 def featuresAccept (known : List Str) (fd : Dict) : Bool :=
-  !(fd.any (fun kv => kv.1 == cs!"self")) && known.all (fun f => featureValueOk (fd.get? f))
+  known.all (fun f => featureValueOk (fd.get? f))
 
 def roleEntryAccept (allowed : List Str) (feats : List (Str × List Str)) (rv : Str × WVal) : Bool :=
   strMem rv.1 allowed &&
@@ -232,8 +229,8 @@ def rolesAccept (allowed : List Str) (feats : List (Str × List Str)) : WVal →
 
 `specViolations` lists, for a parsed message, every field whose value C08 says must never be accepted:
 an id outside [0, 2^53], a URI outside the *intended* grammar (`specUri`, not the regex), a value that is not of
-the option's intended type.  On today's code the list is non-empty exactly at the findings (F2, id ranges that
-are not checked, `force_reregister: 1`, UNREGISTER's unchecked `forward_for`). -/
+the option's intended type.  On today's code the list is non-empty only for PUBLISH `args` of type `str`/`bytes`
+(open finding; admitted on purpose by the constructor). -/
 
 /-- the WAMP id range, as the protocol defines it (NOT regenerated from the code): 0 … 2^53 -/
 def specIdOk (i : Int) : Bool := 0 ≤ i && i ≤ 9007199254740992
@@ -263,16 +260,20 @@ def OptStep.specViolation (specUri : Bool → Bool → Bool → Str → Bool) (m
   match s.ty, v with
   | .bool, .bool _ => none
   | .bool, _ => some cs!"type"
-  | .boolLoose, .bool _ => none
-  | .boolLoose, _ => some cs!"type"
-  | .int _, .int i => if s.idLike && !specIdOk i then some cs!"id-range" else none
+  | .boolOrNull, .bool _ => none
+  | .boolOrNull, _ => some cs!"type"
+  | .int _, .int _ => none
   | .int _, _ => some cs!"type"
+  | .id, .int i => if specIdOk i then none else some cs!"id-range"
+  | .id, _ => some cs!"type"
   | .str, .str _ => none
   | .str, _ => some cs!"type"
   | .strEnum vals, .str x => if strMem x vals then none else some cs!"type"
   | .strEnum _, _ => some cs!"type"
-  | .listInt, .list xs => if !allInt xs then some cs!"type" else if s.idLike && !allIdOk xs then some cs!"id-range" else none
+  | .listInt, .list xs => if allInt xs then none else some cs!"type"
   | .listInt, _ => some cs!"type"
+  | .listId, .list xs => if !allInt xs then some cs!"type" else if !allIdOk xs then some cs!"id-range" else none
+  | .listId, _ => some cs!"type"
   | .listStr, .list xs => if allStr xs then none else some cs!"type"
   | .listStr, _ => some cs!"type"
   | .dict, .dict _ => none
@@ -281,11 +282,8 @@ def OptStep.specViolation (specUri : Bool → Bool → Bool → Str → Bool) (m
   | .uri fl, v => if specUriOk specUri fl v then none else some cs!"uri"
   | .forwardFor _, .list xs => if xs.all ffItemCtorOk then none else some cs!"type"
   | .forwardFor _, _ => some cs!"type"
-  | .unchecked, v =>
-      (match s.cty with
-       | .strOrNone => if v.isStr then none else some cs!"type"
-       | .dictOrNone => if v.isDict then none else some cs!"type"
-       | _ => none)
+  | .strOrNull, v => if v.isStr then none else some cs!"type"
+  | .dictOrNull, v => if v.isDict then none else some cs!"type"
   | .roles _ _, .dict _ => none
   | .roles _ _, _ => some cs!"type"
 
